@@ -89,7 +89,7 @@ def run_job(rec: core.Recorder, job: dict, seed: int) -> None:
         return
     fail = ['raise:ValueError', 'raise:CustomErr'] + ([] if eng == 'serial' else ['kill9'])
     strat = specs.dag_spec(max_nodes=5 if eng == 'spawn' else 9, backends=(eng,), fail_modes=fail, fail_rate=20,
-                           dup_bias=(seed % 3 == 0), bust=True)
+                           dup_bias=(seed % 3 == 0), bust=True, corrupt_rate=15)
     core.run_hypothesis(rec, eng, strat, check, max_examples=job['n'], seed=seed,
                         shrink=(eng == 'controlled' or rec.tier == 'thorough'))
 
